@@ -136,6 +136,12 @@ def cases(rng, tier):
         elif c == 5:     # any other result kind is an error
             bad = rng.choice(["ㅁㅈㅎㄱ", "ㅈㅈㅎㄱ", "ㅁㄹㅎㄱ", "ㄴ ㅅㅅㅎㄴ", "ㅅㅈㅎㄱ", "(ㅁㅈㅎㄱ ㄱㅅㅎㄴ)", "ㄷㅂㅎㄱ"])
             yield Case(program=bad, mode='cli', tag='cli-badkind', monitor='c18_exit', data=('err',))
+            # … in particular what an executed action *delivers*: an action that yields a function, a Boolean, a string, or a
+            # function that returns a function — none of them is applied / executed a second time (seeded change S18l executed a
+            # top-level action before looking for a function, so an action yielding a function had that function applied)
+            for bad2 in ["(ㅈ ㅎ) ㄱㅅㅎㄴ", "(ㄱㅇㄱ ㅈㄷㅎㄴ ㅎ) ㄱㅅㅎㄴ", "(ㄱㅇㄱ ㅈㄷㅎㄴ ㄱㅅㅎㄴ ㅎ) ㄱㅅㅎㄴ", "(ㅈㅈㅎㄱ) ㄱㅅㅎㄴ",
+                         "(ㄹㅎㄱ) ((ㄱㅇㄱ ㅈㄷㅎㄴ ㅎ) ㄱㅅㅎㄴ ㅎ) ㄱㄹㅎㄷ", "(ㄱ ㅎ) ㅎ", "ㄱㅇㄱ ㅈㄷㅎㄴ ㅎ ㅎ"]:
+                yield Case(program=bad2, mode='cli', argv=("abc",), stdin="line\n", tag='cli-badkind-delivered', monitor='c18_exit', data=('err',))
         elif c == 6:     # more than one top-level expression is an error; none is status 0
             yield Case(program=f"{enc(k)} {enc(k)}", mode='cli', tag='cli-two', monitor='c18_exit', data=('err',))
             yield Case(program=rng.choice(["", "  ", "abc !"]), mode='cli', tag='cli-empty', monitor='c18_exit', data=('exit', 0))
